@@ -23,6 +23,21 @@ use crate::eval::runtime::slots::LocalSlotIdCapturedOrNot;
 use crate::values::FrozenStringValue;
 use crate::values::Value;
 use crate::values::ValueLike;
+use crate::values::layout::value_captured::FrozenValueCaptured;
+use crate::values::layout::value_captured::ValueCaptured;
+use crate::values::layout::value_captured::value_captured_get;
+
+/// A local variable captured by a nested function lives in a cell: show what the cell holds
+/// (nothing if it is not assigned yet), not the cell.
+fn unwrap_captured<'v>(v: Value<'v>) -> Option<Value<'v>> {
+    if v.downcast_ref::<ValueCaptured>().is_some()
+        || v.downcast_ref::<FrozenValueCaptured>().is_some()
+    {
+        value_captured_get(v)
+    } else {
+        Some(v)
+    }
+}
 
 pub(crate) fn to_scope_names_by_local_slot_id<'v>(x: Value<'v>) -> Option<&'v [FrozenStringValue]> {
     if x.unpack_frozen().is_some() {
@@ -62,10 +77,10 @@ fn inspect_local_variables<'v>(
         .find_map(to_scope_names_by_local_slot_id)?;
     let mut res = SmallMap::new();
     for (slot, name) in names.iter().enumerate() {
-        // TODO(nga): correctly handle captured.
         if let Some(v) = eval
             .current_frame
             .get_slot_slow(LocalSlotIdCapturedOrNot(slot as u32))
+            .and_then(unwrap_captured)
         {
             res.insert(name.as_str().to_owned(), v);
         }
@@ -96,7 +111,10 @@ fn inspect_frame_variables<'v>(
 
     let mut res = SmallMap::with_capacity(names.len());
     for (slot, name) in names.iter().enumerate() {
-        if let Some(v) = frame_ptr.get_slot_slow(LocalSlotIdCapturedOrNot(slot as u32)) {
+        if let Some(v) = frame_ptr
+            .get_slot_slow(LocalSlotIdCapturedOrNot(slot as u32))
+            .and_then(unwrap_captured)
+        {
             res.insert(name.as_str().to_owned(), v);
         }
     }
